@@ -9,6 +9,7 @@ import PK.Model.Games
 import PK.Model.Analysis
 import PK.Model.Notation
 import PK.Model.Acpc
+import PK.Model.Import
 open PK PK.State
 
 namespace Driver
@@ -381,6 +382,24 @@ partial def loop (T : Tables) (inp out : IO.FS.Stream) (ss : Sess) : IO Unit := 
     let v := viewer.toNat?
     let holes := (List.range n).map fun p => String.join ((holeSlots v p log).map String.ofList)
     out.putStrLn s!"Z {String.ofList (acpcActions (nt == "1") n log)}:{"|".intercalate holes}{String.ofList (acpcBoard log)}"
+    loop T inp out ss
+  | "import" :: site :: evs =>
+    -- the importer's `_parse_actions` on an event list (harness/sitelogs.py)
+    let st : Site := if site == "pokerstars" then .pokerStars else if site == "fulltilt" then .fullTilt
+      else if site == "partypoker" then .partyPoker else if site == "ipoker" then .iPoker
+      else if site == "ongame" then .ongame else .absolute
+    let parseEv (t : String) : Option LogEvent :=
+      match t.splitOn ":" with
+      | ["P", p, a] => some (.post (p.toNat?.getD 0) (a.toNat?.getD 0))
+      | ["H", p, cs] => some (.hole (p.toNat?.getD 0) (parseCards cs))
+      | ["B", cs] => some (.board (parseCards cs))
+      | ["F", p] => some (.fold (p.toNat?.getD 0))
+      | ["C", p] => some (.call (p.toNat?.getD 0))
+      | ["R", p, raw, w] => some (.raise (p.toNat?.getD 0) (raw.toNat?.getD 0) (if w == "i" then .incremental else .total))
+      | ["S", p, cs] => some (.shows (p.toNat?.getD 0) (parseCards cs))
+      | _ => none
+    let acts := importEvents st [] (evs.filterMap parseEv)
+    out.putStrLn ("J " ++ "|".intercalate (acts.map fun a => String.ofList a.line))
     loop T inp out ss
   | ["lexacpc", text] =>
     (match lexActions (text.length + 2) text.toList with
